@@ -530,10 +530,38 @@ class ConstantScoreWrapperMatcher(WrappingMatcher):
     def _replacement(self, newchild):
         return self.__class__(newchild, score=self._score)
 
+    def supports_block_quality(self):
+        return True
+
+    def replace(self, minquality=0):
+        # The child's own scores and qualities are irrelevant: every posting
+        # scores self._score
+        if not self.child.is_active():
+            return mcore.NullMatcher()
+        if minquality and self._score < minquality:
+            return mcore.NullMatcher()
+        r = self.child.replace()
+        if r is not self.child:
+            return self._replacement(r)
+        return self
+
+    def skip_to_quality(self, minquality):
+        skipped = 0
+        if self._score <= minquality:
+            # No posting of this matcher can exceed the minimum quality
+            child = self.child
+            while child.is_active():
+                child.next()
+                skipped = 1
+        return skipped
+
     def max_quality(self):
         return self._score
 
     def block_quality(self):
+        return self._score
+
+    def weight(self):
         return self._score
 
     def score(self):
